@@ -120,6 +120,28 @@ def helper_cells(maxw, rng):
             cs.append(Cell(f"count_while|{t}", ins, U(4), f"{{o}} <<= std.count_elements_while({lst}, {{a}})", lambda P, *v: cnt_while(P, [x == v[0] for x in v])))
             cs.append(Cell(f"count_until|{t}", ins, U(4), f"{{o}} <<= std.count_elements_until({lst}, {{d}})", lambda P, *v: cnt_while(P, [x != v[3] for x in v])))
             cs.append(Cell(f"count_while_cond|{t}", ins, U(4), f"{{o}} <<= std.count_elements_while({lst}, cond=lambda x: x < {{d}})", lambda P, *v: cnt_while(P, [x < v[3] for x in v])))
+    # user supplied keys (not idempotent: key(key(x)) != key(x)) and predicate forms
+    for w in (2, 3):
+        t = U(w)
+        top = (1 << w) - 1
+        ins = [("a", t), ("b", t), ("c", t), ("d", t)]
+        lst = "[{a}, {b}, {c}, {d}]"
+        key = f"lambda x: Unsigned[{w}]({top}) - x"
+        kf = lambda x, top=top: top - x
+        cs.append(Cell(f"max_index_key|{t}", ins, U(4), f"{{o}} <<= std.max_index({lst}, key={key})", lambda P, *v, kf=kf: _ext(P, [kf(x) for x in v], lambda x, y: x > y)[0]))
+        cs.append(Cell(f"min_index_key|{t}", ins, U(4), f"{{o}} <<= std.min_index({lst}, key={key})", lambda P, *v, kf=kf: _ext(P, [kf(x) for x in v], lambda x, y: x < y)[0]))
+        cs.append(Cell(f"max_element_key_idx|{t}", ins, U(4), f"{{o}} <<= std.max_element({lst}, key={key})[0]", lambda P, *v, kf=kf: _ext(P, [kf(x) for x in v], lambda x, y: x > y)[0]))
+        cs.append(Cell(f"min_element_key_val|{t}", ins, t, f"{{o}} <<= std.min_element({lst}, key={key})[1]",
+                       lambda P, *v, kf=kf: _pick(P, v, _ext(P, [kf(x) for x in v], lambda x, y: x < y)[0])))
+        cs.append(Cell(f"maximum_key|{t}", ins, t, f"{{o}} <<= std.maximum({lst}, key={key})", lambda P, *v, kf=kf: _pick(P, v, _ext(P, [kf(x) for x in v], lambda x, y: x > y)[0])))
+        cs.append(Cell(f"minimum_key|{t}", ins, t, f"{{o}} <<= std.minimum({lst}, key={key})", lambda P, *v, kf=kf: _pick(P, v, _ext(P, [kf(x) for x in v], lambda x, y: x < y)[0])))
+        cs.append(Cell(f"count_until_cond|{t}", ins, U(4), f"{{o}} <<= std.count_elements_until({lst}, cond=lambda x: x > {{d}})", lambda P, *v: cnt_while(P, [P.lnot(x > v[3]) for x in v])))
+        cs.append(Cell(f"count_until_cond_eq|{t}", ins, U(4), f"{{o}} <<= std.count_elements_until({lst}, cond=lambda x: x == {{b}})", lambda P, *v: cnt_while(P, [x != v[1] for x in v])))
+    for w in (3, 5):
+        cs.append(Cell(f"count_until_cond_bits|{w}", [("a", BV(w))], U(4), "{o} <<= std.count_elements_until({a}, cond=lambda x: x == Bit(1))",
+                       lambda P, a, w=w: cnt_while(P, [bit(P, a, i) == 0 for i in range(w)])))
+        cs.append(Cell(f"count_while_cond_bits|{w}", [("a", BV(w))], U(4), "{o} <<= std.count_elements_while({a}, cond=lambda x: x == Bit(1))",
+                       lambda P, a, w=w: cnt_while(P, [bit(P, a, i) == 1 for i in range(w)])))
     # selection helpers
     t = U(3)
     cs.append(Cell("choose_first", [("a", t), ("b", t), ("c", t), ("x", BIT), ("y", BIT)], t, "{o} <<= std.choose_first[Unsigned[3]](({x}, {a}), ({y}, {b}), default={c})",
@@ -156,6 +178,13 @@ def _fold(P, f, v):
     r = v[0]
     for x in v[1:]:
         r = f(P, r, x)
+    return r
+
+
+def _pick(P, v, idx):
+    r = v[-1]
+    for i in range(len(v) - 2, -1, -1):
+        r = P.ite(idx == i, v[i], r)
     return r
 
 
